@@ -39,6 +39,10 @@ def run(ctx):
     ctx.guard(_standin_a_c, ctx, py)
     ctx.guard(_standin_b, ctx, py)
 
+    # frame of the modules under contract (no state kept between calls, arguments left alone): same analysis as C19
+    from props import C19 as _C19
+    ctx.guard(_C19.frame_obligations, ctx, py, "C12", {'filters', 'inertial_sensor'})
+
 
 # -----------------------------------------------------------------------------------------------
 def _no_data_branch_unreachable(ctx, py):
